@@ -192,4 +192,22 @@ def register_finite(reg):
                  ("if self.threshold_eff == 0 and attr == 'flux':", "if attr == 'flux':"),
                  ("if self.threshold_eff == 0 and attr == 'flux':", "if self.threshold_eff == 0 and attr == 'peak':")],
     ))
+    # IRAFStarFinder: rows that already failed the "more than one non-zero cutout pixel" test stay
+    # dropped; of the others a row is kept iff every reported column is finite
+    icols = ('xcentroid', 'ycentroid', 'sharpness', 'roundness', 'pa', 'sky', 'peak', 'flux')
+    irec = '_IRAFStarFinderCatalog@finite'
+    reg.record(irec, {c: ('arr', 1, 'real', 'nonfinite') for c in icols})
+    reg.add(Contract(
+        target='photutils/detection/irafstarfinder.py::_IRAFStarFinderCatalog.apply_filters',
+        props=['C14'], kind='method', tag='finite-rows', block=('attrs', 'mask', 1), block_skip=(1,),
+        params={'self': irec, 'mask': ('arr', 1, 'bool')},
+        requires=[f'self.{c}.shape[0] == {n}' for c in icols] + [f'mask.shape[0] == {n}'],
+        ensures=[('one-flag-per-row', f'mask.shape == ({n},)'),
+                 ('kept-iff-kept-before-and-every-reported-column-is-finite',
+                  'forall(lambda k: iff(mask[k], old_mask[k] and '
+                  + ' and '.join(f'isfinite_at(self.{c}, k)' for c in icols) + f'), (0, {n}))')],
+        mutants=[('mask &= np.isfinite(getattr(self, attr))', 'mask |= np.isfinite(getattr(self, attr))'),
+                 ('mask &= np.isfinite(getattr(self, attr))', 'mask &= ~np.isfinite(getattr(self, attr))'),
+                 ("'sky', 'peak', 'flux')", "'sky', 'peak')")],
+    ))
 
